@@ -151,3 +151,24 @@ def register(reg):
         modifies=["self.all_solutions"],
         loops={0: {"inv": [KEEP, NEW_GOOD]}},
         props=["C08"])
+
+    SUB = "forall(range(0, len(result)), lambda j: exists(range(0, len(solutions)), lambda i: result[j] is solutions[i]))"
+    reg.contract(
+        F, "SyntheticRuleMatcher.remove_overlapping_solutions",
+        params={"solutions": List(PATH)}, returns=List(PATH), fresh_result=True, assumed=True,
+        ensures=[SUB], note="returns a sub-list of its argument (set/frozenset code, outside the subset; checked at run time)",
+        props=["C08"])
+    reg.contract(
+        F, "SyntheticRuleMatcher.rank_solutions",
+        params={"solutions": List(PATH), "ranking": VAL}, returns=List(PATH), assumed=True,
+        ensures=[SUB], note="returns a (re-ordered) sub-list of its argument (sorted with key functions; checked at run time)",
+        props=["C08"])
+    reg.contract(
+        F, "SyntheticRuleMatcher.match",
+        params={"self": Obj("SyntheticRuleMatcher")}, returns=List(PATH),
+        requires=[WF_DB, "'Q' in self.data_dict",
+                  "forall(STR, lambda k: implies(k in self.data_dict and k != 'Q', self.data_dict[k] != 0))",
+                  "implies(self.select == 'all', len(self.all_solutions) == 0)"],
+        ensures=["forall(range(0, len(result)), lambda i: " + GOOD.format(p="result[i]") + ")"],
+        modifies=["self", "old(self.all_solutions)"],
+        props=["C08"])
